@@ -12,7 +12,7 @@ def specs(tier):
     import gridlab
 
     ex = ["contours", "meshmeta", "regions", "stencil"]
-    S = [gridlab.tokamak_spec("lsn", fpol="linear", extract=ex),
+    S = [gridlab.tokamak_spec("lsn", fpol="linear", extract=ex, write_twice=True),
          gridlab.tokamak_spec("cdn", fpol="linear", options={"orthogonal": False}, extract=ex),
          gridlab.circular_spec(options={"poloidal_spacing_method": "linear", "finecontour_Nfine": 200}, extract=ex),
          # FineContour left visibly non-uniform (relaxed equalisation tolerance): the integral must use the actual point distances
@@ -211,6 +211,16 @@ def run(res, tier):
         nchains = len(g["extras"]["contours"]["y_groups"])
         for k in range(nchains):
             res.case(key=("grid", name, k), nontrivial=True, sample={"grid": name, "chain": g["extras"]["contours"]["y_groups"][k]} if k == 0 else None)
+        if g.get("vars2") is not None:
+            # a second grid file written from the same mesh: zShift, ShiftAngle, dphidy, ShiftTorsion (and everything else) unchanged
+            diff = [k for k, a in g["vars"].items() if k in g["vars2"] and getattr(a, "dtype", None) is not None and a.dtype.kind == "f"
+                    and not np.array_equal(a, g["vars2"][k], equal_nan=True)]
+            if diff:
+                k0 = next((k for k in diff if k.startswith("zShift")), diff[0])
+                with np.errstate(all="ignore"):
+                    d0 = float(np.nanmax(np.abs(np.nan_to_num(g["vars"][k0], nan=0.0, posinf=0.0, neginf=0.0) - np.nan_to_num(g["vars2"][k0], nan=0.0, posinf=0.0, neginf=0.0))))
+                res.violation("second-write-differs", "%s: a second grid file written from the same mesh differs from the first in %s (%s by %.3g): writing the file changed "
+                              "the mesh's arrays" % (name, diff[:6], k0, d0), {"spec": g["spec"]})
         if oracle(res, g, lines, pend):
             res.traces += 1
         stencil_lines(g, name, lines, pend)
